@@ -24,6 +24,11 @@ subtype relations (`interpreter.IsSubType` on static types, `interpreter.IsSubTy
 `Properties/C29.lean` hold for every context; the driver instantiates it with the interpretation of
 the regenerated `rules.yaml` data (C08's model) and the declarations of the deployed test contract.
 
+The port follows the code after the three `fix:` commits of this property in /repo (40ca3c1: an
+un-inferable array element type is a user error; 0b5d6d2: a value of an enum type must be an enum with
+a raw value of the raw type; a09fb75: an array imported with an expected array type checks its
+element types and reports a malformed value).
+
 Static-type presence (`hasValidStaticType`, the `InspectValue` walk at the end of
 `importValidatedArguments`) holds by construction here: both branches of `importArrayValue` /
 `importDictionaryValue` build the value with a static type, and `IV.arr` / `IV.dict` cannot be
@@ -324,10 +329,26 @@ def buildDict (c : Ctx) (kt vt : Ty) : IPairs → IPairs → Outcome IPairs
     else if !c.sub (dynType c v) vt then .user .import_
     else buildDict c kt vt (acc.insert k v) r
 
+/-- `Value.IsResourceKinded` -/
+def resourceKinded : IV → Bool
+  | .some v => resourceKinded v
+  | .comp k _ _ => k == .resource
+  | .arr t _ => t.isResource
+  | .dict k v _ => (Ty.dict k v).isResource
+  | _ => false
+
+/-- `CompositeValue.SetMember`: a repeated name overwrites; overwriting a resource-kinded value is a
+    `ResourceLossError` (user panic) -/
+def IFields.setChecked (name : String) (v : IV) : IFields → Outcome IFields
+  | .nil => .ok (.cons name v .nil)
+  | .cons n w r =>
+    if n == name then (if resourceKinded w then .user .import_ else .ok (.cons n v r))
+    else (r.setChecked name v).map (.cons n w)
+
 /-- `NewCompositeValue`: fields are set in order, by name -/
-def buildFields : IFields → IFields → IFields
-  | acc, .nil => acc
-  | acc, .cons n v r => buildFields (acc.set n v) r
+def buildFields : IFields → IFields → Outcome IFields
+  | acc, .nil => .ok acc
+  | acc, .cons n v r => (acc.setChecked n v).bind fun acc' => buildFields acc' r
 
 def keysOf : IPairs → IVs
   | .nil => .nil | .cons k _ r => .cons k (keysOf r)
@@ -388,8 +409,7 @@ def importValue (c : Ctx) : XV → Option Ty → Outcome IV
     match c.decls id with
     | none => .user .import_                           -- TypeLoadingError
     | some d =>
-      (importFields c fs d.fields).bind fun ifs =>
-        let built := buildFields .nil ifs
+      (importFields c fs d.fields).bind fun ifs => (buildFields .nil ifs).bind fun built =>
         -- a value of an enum type must be an enum with a raw value of the declared raw type (it is
         -- hashed by it when used as a dictionary key, before the conformance check)
         if kind == .enum || d.kind == .enum then
